@@ -1,6 +1,7 @@
 package main
 
 import (
+	"bufio"
 	"encoding/json"
 	"fmt"
 	"os"
@@ -45,6 +46,9 @@ type Ctx struct {
 	extra    map[string]any
 	mismatch string // name of the Coq mismatches function
 	casetype string
+	caseClass []string
+	witness  map[string]string
+	childOut *bufio.Writer
 }
 
 // NativeViolation is a property failure established by the harness itself on
@@ -57,7 +61,16 @@ type NativeViolation struct {
 }
 
 func (c *Ctx) add(term, descr, class string, nontrivial bool) {
+	if childStart >= 0 {
+		nt := "0"
+		if nontrivial {
+			nt = "1"
+		}
+		c.childEmit("CASE", term, descr, class, nt)
+		return
+	}
 	c.cases = append(c.cases, term)
+	c.caseClass = append(c.caseClass, class)
 	c.descr = append(c.descr, descr)
 	if c.classes == nil {
 		c.classes = map[string]int{}
@@ -71,6 +84,10 @@ func (c *Ctx) add(term, descr, class string, nontrivial bool) {
 }
 
 func (c *Ctx) count(key string) {
+	if childStart >= 0 {
+		c.childEmit("COUNT", key)
+		return
+	}
 	if c.dist == nil {
 		c.dist = map[string]int{}
 	}
@@ -78,7 +95,16 @@ func (c *Ctx) count(key string) {
 }
 
 func (c *Ctx) finish() {
-	shardSize := 1500
+	if childStart >= 0 {
+		for _, nv := range c.native {
+			c.childEmit("NATIVE", nv.Case, nv.What, nv.Class)
+		}
+		c.childEmit("HEADER", strings.ReplaceAll(c.header, "\n", "\\n"), c.mismatch, c.casetype)
+		c.childEmit("DONE")
+		c.childOut.Flush()
+		return
+	}
+	shardSize := 400
 	nshards := (len(c.cases) + shardSize - 1) / shardSize
 	for s := 0; s < nshards; s++ {
 		lo, hi := s*shardSize, (s+1)*shardSize
@@ -114,6 +140,8 @@ func (c *Ctx) finish() {
 		"shard_size":          shardSize,
 		"native_violations":   c.native,
 		"descr":               c.descr,
+		"case_class":          c.caseClass,
+		"witness_status":      c.witness,
 		"extra":               c.extra,
 	}
 	js, err := json.MarshalIndent(stats, "", " ")
@@ -154,4 +182,3 @@ func coqZ(v int64) string {
 
 func coqN(v uint64) string { return fmt.Sprintf("%d", v) }
 
-func runChild(spec string) {}
